@@ -10,6 +10,7 @@ CLAIMED = {
  'C02': ('exploration', 'Same world with the text-image oracle (full .text diff against a pristine snapshot, entry must hold a complete jump to a live function value) and the /proc/self/maps page oracle after EVERY step, 1-3 builders with clean hand-offs, double resets, re-mock after reset, final image == pristine.', 'Trusted: ELF symbol table of the child binary for region extents; histories where the statement is silent (two live builders on one target) are not generated.', 'deterministic simulation: seeded operation histories with image/page invariants after every step', 'DESIGN.md §7 C02'),
  'C04': ('exploration', 'Stub configuration histories (default first, then When / In clauses built from plain values, Any and In expressions; calls interleaved with configuration) on zoo targets including variadics with 0-2 leading fixed parameters, compared call by call (real calls in three call forms and When.Eval) with a reference interpreter of the documented rule: ordered clauses, first match, default, else a "no suitable condition" panic. Unique result ids make every answer attributable to one (clause, position).', 'Trusted: small matchable value domains (ints, strings, bools, all-int structs, ints inside interface{}); cross-kind equality belongs to C18; nested arg.In inside In(...) alternatives and Eval on variadic targets are not generated (not documented forms).', 'deterministic simulation: seeded configuration/call histories vs executable reference interpreter', 'DESIGN.md §7 C04+C05'),
  'C05': ('exploration', 'Same world with result sequences of length 1-6 on the default and on clauses (Return+AndReturn and Returns forms); sequential part compared position by position with the reference; concurrent part = 2-4 caller tasks under the seeded scheduler with preemption between the cursor load and add (hook matcher.result.loaded), recorded invoke/return event numbers checked with porcupine against the relaxed sequence model (positions in range, never backwards) plus the pairwise criterion, and the same plans under the race-detector build whose only cross-task happens-before edges are goom\'s own.', 'Trusted: porcupine v1.3.0; histories are capped at 64 operations per clause; Unknown (timeout) is never reported.', 'deterministic simulation: seeded interleavings of concurrent callers, porcupine linearizability check of the recorded history, race detector on serialised execution', 'DESIGN.md §7 C04+C05'),
+ 'C07': ('exploration', 'Histories of interface-variable mocks over an interface zoo (1-6 methods, unsorted declaration order, unexported and embedded methods, three variables per type some pre-loaded): Apply and As().Return per method in any subset/order, every method called through the variable (mocked slot -> its own replacement with exact arguments, un-mocked slot -> "method not implements" panic), other variables untouched, variable non-nil, builder dropped, Reset restores the two interface words; GC events (clobberfree + churn) fire at every yield including between two method mocks.', 'Trusted: one builder per variable and history; a second bare Return on the same method in one stub epoch is not generated.', 'deterministic simulation: seeded histories with GC-event injection at hook points, reference model + crash oracle', 'DESIGN.md §7 C07'),
  'C08': ('exploration', 'Set / Apply / Cancel / Reset histories (0..n Sets, double resets, lookups without Set) over a 27-variable zoo of every kind (exported by pointer, unexported by package.name) with GC events between and inside steps; after every step the variable is read directly and through an accessor compiled in its package and compared (identity for reference kinds) with the model "first pre-mock value per builder".', 'Trusted: a variable is handled by one builder per history (two builders on one variable are outside the statement); Set(untyped nil) and values of another type on unexported variables are not generated (documented as undefined).', 'deterministic simulation: seeded histories with GC events vs reference model', 'DESIGN.md §7 C08'),
  'C12': ('exploration', 'Lookup/instruction histories (fresh lookups only) against a last-writer-wins model, behaviour checked by calling the target after every step.', 'Trusted: the grammar of Appendix F (stale handles kept across Apply are not generated).', 'deterministic simulation: seeded histories vs last-writer-wins reference model', 'DESIGN.md §7 C12'),
  'C13': ('exploration', 'Well-formed histories with eleven classes of ill-formed configuration calls spliced in at seeded positions (on un-mocked and on mocked targets); each must panic/err (typed cause chain walked), change no text byte, and leave the model state intact for the rest of the history.', 'Trusted: the classes of mistakes are the ones the statement lists; When(..).Return(bad) chains are not generated because the When half is a valid call that patches.', 'deterministic simulation: fault = rejected operation inside a history, "nothing changed" image oracle', 'DESIGN.md §7 C13'),
